@@ -203,7 +203,10 @@ def itemsOfSet (env : Env) (xs : List Val) : R (List Item) :=
   match xs with
   | [] => .ok []
   | x :: _ =>
-    if xs.all (fun y => pairShaped env y == pairShaped env x) then itemsOfSeq env xs
+    if xs.all (fun y => pairShaped env y == pairShaped env x) then
+      -- (index, element) pairs of a set depend on its hash order
+      if pairShaped env x == some false && xs.length ≥ 2 then .error .unsupported
+      else itemsOfSeq env xs
     else .error .unsupported
 
 /-- `iteritems`: pairs of a mapping, (field, value) of a structured object or named tuple, the
